@@ -14,8 +14,8 @@ ROOT = Path(__file__).resolve().parent.parent
 REPO = Path(os.environ.get("VERIF_REPO", "/repo"))
 LEAN = ROOT / "lean"
 CACHE = ROOT / ".cache"
-OUT = ROOT / "out"
-EVID = ROOT / "evidence"
+OUT = Path(os.environ.get("VERIF_OUT", ROOT / "out"))
+EVID = Path(os.environ.get("VERIF_EVID", ROOT / "evidence"))
 def driver_path(container):
     return LEAN / ".lake" / "build" / "bin" / f"driver_{container}"
 
@@ -440,7 +440,7 @@ def shrink(container, ops, pred, opts=None, budget=400):
 
 
 def write_replay(pid, n, container, ops, diffs, header_extra=None):
-    OUT.mkdir(exist_ok=True)
+    OUT.mkdir(parents=True, exist_ok=True)
     path = OUT / f"{pid}-{n:04d}.ops"
     with open(path, "w") as f:
         f.write(f"# property={pid} container={container}\n")
